@@ -11,6 +11,7 @@ ENGINES = [
     {'name': 'E3 probes', 'path': 'vf/probes.py', 'kind_free_text': 'instrumented RefCounter (real arithmetic, observed), recording consumers'},
     {'name': 'E4 reference interpreter', 'path': 'vf/model.py', 'kind_free_text': 'executable list-level model of the node catalogue used as oracle over recorded histories'},
     {'name': 'E5b async runner', 'path': 'vf/asyncrun.py', 'kind_free_text': 'async case runner (producers, consumers, bounded settle) and local/edge oracles'},
+    {'name': 'E7 in-memory Kafka', 'path': 'vf/kafka_fake.py', 'kind_free_text': 'stand-in for the confluent_kafka client API with a broker journal surviving restarts'},
     {'name': 'E5 program generator', 'path': 'vf/progs.py', 'kind_free_text': 'seeded generator of pipeline programs and input interleavings'},
 ]
 
@@ -119,6 +120,15 @@ add('C17', 'exploration', 'runtime monitoring on a virtual-time loop with real f
     'records are compared with the written text up to its last delimiter (from_end on/off); for filenames every created '
     'path must be emitted exactly once and sorted within one poll cycle.',
     'Virtual clock; "\\r" only with a caller-supplied file object opened with newline="".', 'DESIGN.md#C17')
+
+add('C09', 'fault_enumeration', 'runtime monitoring with crash injection: real FromKafkaBatched on an in-memory confluent_kafka client, journal + consumer history checked at every commit point and across restarts',
+    'The real batched Kafka source runs on the virtual-time loop over an in-memory broker that journals every client call; '
+    'range algebra per partition, exact batch content, and at every commit (the only points where durable state changes) '
+    'all messages below the committed offset must have been completely processed; the process is crashed after sampled '
+    '(quick) or every (thorough) recorded event, restarted with the same group id, and every message must be completed '
+    'before the crash or re-delivered after it.',
+    'Fidelity of the in-memory client for the calls used; non-empty message values; per-partition in-order completion '
+    'enforced by the harness consumer (the property\'s proviso).', 'DESIGN.md#C09')
 
 
 def main():
